@@ -8,9 +8,12 @@ CONSTANTS
   MaxAnswers = 2
   MaxCalls = 3
   CarryLayers = {"http", "json", "signed"}
+  X509Chains = {"x509"}
+  KeyOptions = {"bothDifferent"}
+  ReplaySources = {}
 INIT Init
 NEXT Next
 VIEW StateView
 INVARIANTS TypeOK OnlyVerifiedSTH OnlyVerifiedSCT
-PROPERTIES OnlyFrom200 ErrorsCarryResponse NoPartialResults
+PROPERTIES OnlyFrom200 ErrorsCarryResponse NoPartialResults NoCreditForHistory
 CHECK_DEADLOCK FALSE
